@@ -1360,6 +1360,14 @@ func (w *_mapAssembler) AssembleKey() datamodel.NodeAssembler {
 		schemaType: w.schemaType.KeyType(),
 		val:        reflect.New(w.valuesVal.Type().Key()).Elem(),
 	}
+	// A repeated key is reported when the key is supplied.
+	w.curKey.finish = func() error {
+		kval := w.curKey.val
+		if !w.valuesVal.IsNil() && w.valuesVal.MapIndex(kval).IsValid() {
+			return datamodel.ErrRepeatedMapKey{Key: &_node{w.cfg, w.schemaType.KeyType(), kval}}
+		}
+		return nil
+	}
 	return &w.curKey
 }
 
